@@ -79,6 +79,10 @@ def gen_inputs(ctx):
             for cp in (0xff00 + ord(ch) - 0x20, 0x212a if ch in "Kk" else 0x17f if ch in "sS" else 0x2460):
                 t = base[:pos] + chr(cp) + base[pos + 1:]
                 out.append(("B58Dec", T(t), ("dec-bad-unicode", unicodedata.normalize("NFKC", chr(cp)).lower() == ch.lower())))
+    for base in ("abc", "1z", "2NEpo7TZRRrLZSi2U"):
+        for ins in ("\u200b", "\u00a0", "\ufeff", "\u00e9", "\U0001f600"):
+            for pos in (0, 1, len(base)):
+                out.append(("B58Dec", T(base[:pos] + ins + base[pos:]), ("dec-ins-unicode",)))
     # checksummed decoder: mutations of valid encodings
     valids = []
     payload_specs = [(0x00, 20), (0x05, 20), (0x6f, 20), (0xc4, 20), (0x80, 32), (0x80, 33), (0xef, 33),
@@ -114,6 +118,11 @@ def gen_inputs(ctx):
             out.append(("B58DecCheck", T(s[:p] + s[p + 1:]), ("chk-del", p == 0)))
         for k in (1, 2, 5):
             out.append(("B58DecCheck", T("1" * k + s), ("chk-1prefix", k)))
+        # a non-ASCII character INSERTED (zero-width space, no-break space, BOM, accented / fullwidth / Cyrillic letter,
+        # emoji): a decoder that drops what it cannot map would see the valid string again
+        for p in (rng.sample(range(len(s) + 1), min(len(s) + 1, 3 if q else 10))):
+            ins = rng.choice(["\u200b", "\u00a0", "\ufeff", "\u00e9", "\uff21", "\u0410", "\U0001f600", "\u2028", "\u00ad"])
+            out.append(("B58DecCheck", T(s[:p] + ins + s[p:]), ("chk-ins-unicode", p == 0, p == len(s))))
         # one character replaced by its fullwidth twin / a case-mapped relative
         for p in (rng.sample(range(len(s)), min(len(s), 4 if q else 12))):
             tw = chr(0xff00 + ord(s[p]) - 0x20)
